@@ -163,6 +163,8 @@ def values_equal(a, b):
         return True
     if a is None and b is None:
         return True
+    if isinstance(a, (bool, int)) and isinstance(b, (bool, int)):
+        return a == b
     if isinstance(a, dict) and isinstance(b, dict):
         return set(a) == set(b) and all(values_equal(a[k], b[k]) for k in a)
     from .mirsym.values import Opaque
